@@ -1,6 +1,7 @@
 package main
 
 import (
+	"syscall"
 	"bufio"
 	"crypto/tls"
 	"fmt"
@@ -209,6 +210,13 @@ func runRel(svc, mode string, n int, input []byte, bound time.Duration) {
 		viol("descriptors-left-behind", fmt.Sprintf("%s: after %d connections (%s) %d descriptors more than before", svc, n, mode, dfd))
 	}
 	emit(line, fmt.Sprintf("ret<%s g=%d fd=%d", bucketMs(maxRet), dg, maxInt(dfd, 0)), verdict, n > 0)
+	if strings.HasPrefix(verdict, "viol:handler-does-not-return") && cpuBusy() {
+		// a handler that neither returns nor sleeps (it spins, and may report events at full speed) would starve and bloat
+		// the rest of the stream: the record above is the finding, the stream ends here
+		fmt.Fprintln(out, "#stat c09_stream_cut_short_after_spinning_handler 1")
+		out.Flush()
+		os.Exit(0)
+	}
 }
 
 func bucketMs(d time.Duration) string {
@@ -219,6 +227,18 @@ func bucketMs(d time.Duration) string {
 		return "1s"
 	}
 	return "bound"
+}
+
+// cpuBusy: the process used more than 80 % of one CPU over the last 300 ms although the client has gone
+func cpuBusy() bool {
+	cpu := func() time.Duration {
+		var ru syscall.Rusage
+		syscall.Getrusage(syscall.RUSAGE_SELF, &ru)
+		return time.Duration(ru.Utime.Nano() + ru.Stime.Nano())
+	}
+	c0 := cpu()
+	time.Sleep(300 * time.Millisecond)
+	return cpu()-c0 > 240*time.Millisecond
 }
 
 func maxInt(a, b int) int {
